@@ -95,7 +95,9 @@ CLAIMED = {
         "diagnostics modulo position and every generated file with the banner line removed. Re-formatting: the parser model looks at token types only - "
         "texts whose token streams agree on (type, text) get the same parse tree up to positions, for every grammar (C11_reformatting); line breaks isolate: "
         "for the token rules translated from Idl.g4 (computable side condition table_ok, decided by vm_compute) the lexemes in front of a line break do not depend on "
-        "anything that follows it (C11_line_break_isolates_what_precedes, from prefix determinacy of the pattern matcher), and lexing continues from a boundary depending only on the position.",
+        "anything that follows it (C11_line_break_isolates_what_precedes, from prefix determinacy of the pattern matcher), and lexing continues from a boundary depending only on the position; "
+        "the same for blank, tab and carriage return, and as the statement a user reads: between two lexemes a white-space run may be replaced by any other white-space run that starts "
+        "with the same character - same lexemes in front, same token types and texts after, only positions move (C11_white_space_runs_are_interchangeable).",
    note="Trusted: Coq kernel; the real pipeline is the subject of the metamorphic runs (no model of the generators here). Known "
         "finding C11-K1 (order decides which of two colliding declarations survives; consequence of C15).",
    technique="Coq proof (permutation/split invariance of diagnostics and bindings) + metamorphic comparison of the implementation's outputs", design="7/C11"),
@@ -155,9 +157,12 @@ CLAIMED = {
         "K-jinja renders the sliced loops with Jinja itself on the real marshalling objects and compares with the TIR interpreter "
         "(vm_compute) for all 8 enum/flags templates, exhaustively for all none/all patterns up to length 3 (5 in thorough). Render lemmas also for the Java, "
         "Objective-C and C++/CLI enum item loops; a static theorem: each C-family flags template initialises its bit counter to 0 before the block and writes it "
-        "only inside the flags loop; the headers written by the real pipeline for programs with many flags types are read back (bits 0,1,2,... per type).",
+        "only inside the flags loop; the headers written by the real pipeline for programs with many flags types are read back (bits 0,1,2,... per type). Marshalling: "
+        "Lang/JniFlags.v models JniFlags::flags / create of the support library (32-bit unsigned) with round-trip theorems for every type with at most 32 ordinary flags; "
+        "J-runtime builds the generated C++/Java/JNI code with the shipped support library (g++ -shared, javac) and sends every constant, the empty / full sets and unions "
+        "across the boundary in both directions in a JVM.",
    note="Trusted: Coq kernel+vm_compute; the template translator and jinja2's parser; Jinja runtime as reference for the interpreter; C's "
-        "enumerator semantics as stated in Lang/EnumBody.v; JniFlags support code (read). Known finding C08-K1.",
+        "enumerator semantics as stated in Lang/EnumBody.v; g++/javac/java for J-runtime. Known finding C08-K1.",
    technique="Coq proof by induction over flag lists on the translated templates (deep embedding of Jinja) + vm_compute correspondence against Jinja itself", design="7/C08"),
  'C09': dict(
    text="Coq render theorems, proved for EVERY record (any names, any deriving set, any number of fields): the eq and ord sections of the "
